@@ -352,6 +352,8 @@ func PublishContext[T any](bus *EventBus, ctx context.Context, event T) {
 				if !filterFunc(event) {
 					continue // Skip this handler as event doesn't match filter
 				}
+			} else if !filterAccepts(h.filter, event) {
+				continue // Filter declared for the event's dynamic type rejects it
 			}
 		}
 
@@ -535,6 +537,26 @@ func callHandlerWithContext[T any](h *internalHandler, ctx context.Context, even
 			}
 		}
 	}
+}
+
+// filterAccepts evaluates a filter whose parameter type is not the static type the
+// event was published with (for example Publish[any] of a concrete event, which finds
+// the handlers of the event's dynamic type). A filter that cannot be applied to the
+// event accepts it.
+func filterAccepts(filter any, event any) bool {
+	fv := reflect.ValueOf(filter)
+	if fv.Kind() != reflect.Func {
+		return true
+	}
+	ft := fv.Type()
+	if ft.NumIn() != 1 || ft.NumOut() != 1 || ft.Out(0).Kind() != reflect.Bool {
+		return true
+	}
+	ev := reflect.ValueOf(event)
+	if !ev.IsValid() || !ev.Type().AssignableTo(ft.In(0)) {
+		return true
+	}
+	return fv.Call([]reflect.Value{ev})[0].Bool()
 }
 
 // Subscribe Options
